@@ -246,7 +246,7 @@ pub fn model(lines: &[String], mode: i64, def_bank: u8, def_vol: i32) -> (MC, Ve
             accepted.push(false);
             continue;
         }
-        if l.starts_with("!sec ") {
+        if l.starts_with("!sec ") || l.starts_with("!raw ") {
             // a record of another section: not a timing-point line
             accepted.push(false);
             continue;
